@@ -12,6 +12,9 @@ pub enum CommentLocation {
 	ItemInline,
 	/// After all items in object
 	EndOfItems,
+	/// Between two tokens of one construct, a space is already printed before the comment:
+	/// `a = /* comment */ 1`
+	BeforeInline,
 }
 
 #[allow(clippy::too_many_lines, clippy::cognitive_complexity)]
@@ -70,7 +73,7 @@ pub fn format_comments(comments: &ChildTrivia, loc: CommentLocation, out: &mut P
 				}
 				if lines.len() == 1 && !doc {
 					if matches!(loc, CommentLocation::ItemInline) {
-						p!(out, str(" "));
+						p!(out, sp);
 					}
 					p!(out, str("/* ") string(lines[0].trim().to_string()) str(" */"));
 					if matches!(
@@ -78,6 +81,9 @@ pub fn format_comments(comments: &ChildTrivia, loc: CommentLocation, out: &mut P
 						CommentLocation::AboveItem | CommentLocation::EndOfItems
 					) {
 						p!(out, nl);
+					}
+					if matches!(loc, CommentLocation::BeforeInline) {
+						p!(out, sp);
 					}
 				} else if !lines.is_empty() {
 					fn common_ws_prefix<'a>(a: &'a str, b: &str) -> &'a str {
@@ -113,6 +119,9 @@ pub fn format_comments(comments: &ChildTrivia, loc: CommentLocation, out: &mut P
 							.to_string();
 					}
 
+					if matches!(loc, CommentLocation::ItemInline) {
+						p!(out, sp);
+					}
 					p!(out, str("/*"));
 					if doc {
 						p!(out, str("*"));
@@ -163,10 +172,13 @@ pub fn format_comments(comments: &ChildTrivia, loc: CommentLocation, out: &mut P
 			// ```
 			TriviaKind::SingleLineHashComment => {
 				if matches!(loc, CommentLocation::ItemInline) {
-					p!(out, str(" "));
+					p!(out, sp);
 				}
 				p!(out, str("# ") string(c.text().strip_prefix('#').expect("hash comment starts with #").trim().to_string()));
-				if matches!(loc, CommentLocation::ItemInline) {
+				if matches!(
+					loc,
+					CommentLocation::ItemInline | CommentLocation::BeforeInline
+				) {
 					// Whatever is printed next must not end up inside the comment
 					out.push_signal(dprint_core::formatting::Signal::ExpectNewLine);
 				} else {
@@ -175,10 +187,13 @@ pub fn format_comments(comments: &ChildTrivia, loc: CommentLocation, out: &mut P
 			}
 			TriviaKind::SingleLineSlashComment => {
 				if matches!(loc, CommentLocation::ItemInline) {
-					p!(out, str(" "));
+					p!(out, sp);
 				}
 				p!(out, str("// ") string(c.text().strip_prefix("//").expect("comment starts with //").trim().to_string()));
-				if matches!(loc, CommentLocation::ItemInline) {
+				if matches!(
+					loc,
+					CommentLocation::ItemInline | CommentLocation::BeforeInline
+				) {
 					// Whatever is printed next must not end up inside the comment
 					out.push_signal(dprint_core::formatting::Signal::ExpectNewLine);
 				} else {
